@@ -547,4 +547,87 @@ theorem headers_roundtrip (hs acc : List (Bytes × Bytes)) (rest : Bytes) (w : W
 example : HeaderOk ([72,111,115,116], [97,46,98,58,56,48]) := by
   refine ⟨by decide, by decide, by decide, by decide, ⟨[97,46,98,58,56], 48, by decide, by decide⟩, by decide⟩
 
+/-! ## line framing, third layer: a whole response head (`HttpResponse::write_to` then `HttpResponse::read_from`) -/
+
+/-- a response head the writer can emit without changing its meaning -/
+def RespOk (r : Http.Resp) : Prop :=
+  Http.httpSlash.isPrefixOf r.version = true ∧ 0x20 ∉ r.version ∧ 10 ∉ r.version ∧ r.code < 65536 ∧ 10 ∉ r.status ∧
+  (∃ s' b, r.status = s' ++ [b] ∧ 0x20 < b ∧ b < 0x80) ∧
+  utf8Valid (r.version ++ [0x20] ++ showNat r.code ++ [0x20] ++ r.status ++ [13, 10]) = true ∧
+  ∀ kv ∈ r.headers, HeaderOk kv
+
+/-- the bytes of a response head -/
+def respBytes (r : Http.Resp) : Bytes :=
+  r.version ++ [0x20] ++ showNat r.code ++ [0x20] ++ r.status ++ Http.crlf ++ headBytes r.headers ++ Http.crlf
+
+theorem writeResponse_writes (r : Http.Resp) (s : Bytes) (w : W) :
+    runFlat (Http.writeResponse r) s w =
+      (.ok (), s, { flushed := w.flushed ++ (w.pending ++ respBytes r), pending := [] }) := by
+  simp [Http.writeResponse, runFlat_bind, headerLines_writes, respBytes, List.append_assoc]
+
+open HttpLine AddrText in
+/-- `read_from` over what `write_to` wrote returns exactly the response (version, code, status text with its spaces,
+headers in order) and leaves every byte behind the head — the first tunnel bytes — unread -/
+theorem response_roundtrip (r : Http.Resp) (rest : Bytes) (w : W) (fuel : Nat) (hok : RespOk r)
+    (hf : r.headers.length < fuel) :
+    runFlat (Http.readResponse fuel) (respBytes r ++ rest) w = (.ok r, rest, w) := by
+  obtain ⟨hpre, hvs, hvl, hcode, hsl, ⟨s', b, hs, hb⟩, hu, hh⟩ := hok
+  obtain ⟨hne, hall, hval, _, _⟩ := showNat_spec r.code
+  have hcs : (0x20 : Nat) ∉ showNat r.code := digit_not _ (by decide) _ hall
+  have hcl : (10 : Nat) ∉ showNat r.code := digit_not _ (by decide) _ hall
+  let line := r.version ++ [0x20] ++ showNat r.code ++ [0x20] ++ r.status
+  have hlf : 10 ∉ line ++ [13] := by simp [line, hvl, hcl, hsl]
+  have hu' : utf8Valid ((line ++ [13]) ++ [10]) = true := by simpa [line, List.append_assoc] using hu
+  have h := readLine_exact (line ++ [13]) (headBytes r.headers ++ Http.crlf ++ rest) w hlf hu'
+  have hbytes : respBytes r ++ rest = (line ++ [13]) ++ 10 :: (headBytes r.headers ++ Http.crlf ++ rest) := by
+    simp [respBytes, line, Http.crlf, List.append_assoc]
+  have htrim : trimEnd ((line ++ [13]) ++ [10]) = line := by
+    have := trimEnd_crlf (r.version ++ [0x20] ++ showNat r.code ++ [0x20] ++ s') b hb
+    simp only [line]
+    rw [hs]
+    simpa [List.append_assoc] using this
+  have hsplit : splitN3 line = [r.version, showNat r.code, r.status] := by
+    have e1 : line = r.version ++ 0x20 :: (showNat r.code ++ 0x20 :: r.status) := by simp [line, List.append_assoc]
+    unfold splitN3
+    rw [e1, splitOnce_single 0x20 _ _ hvs]
+    simp only [splitOnce_single 0x20 _ _ hcs]
+  have hparse : parseU16 (showNat r.code) = some r.code := by
+    have := parseUnsigned_digits 65535 (showNat r.code) hne hall (by omega)
+    rw [hval] at this
+    exact this
+  have hrec := headers_roundtrip r.headers [] rest w fuel hh hf
+  rw [hbytes]
+  unfold Http.readResponse
+  rw [runFlat_bind, h]
+  simp only [htrim, hsplit, hpre, if_true, hparse, runFlat_bind, hrec]
+  simp
+
+-- non-vacuity: "HTTP/1.1 200 Connection established" with one header
+example : RespOk { version := [72,84,84,80,47,49,46,49], code := 200, status := [79,75,32,103,111], headers := [([72,111,115,116], [97,46,98,58,56,48])] } := by
+  refine ⟨by decide +kernel, by decide, by decide, by decide, by decide, ⟨[79,75,32,103], 111, by decide, by decide⟩, by decide, ?_⟩
+  intro kv hkv
+  simp only [List.mem_cons, List.not_mem_nil, or_false] at hkv
+  subst hkv
+  exact ⟨by decide, by decide, by decide, by decide, ⟨[97,46,98,58,56], 48, by decide, by decide⟩, by decide⟩
+
+/-! ## the upstream CONNECT exchange decides on the status code alone, and hands the tunnel its first bytes intact -/
+
+/-- TCP over an HTTP upstream: whatever well-formed response head the upstream sends, `h11c_connect` reports success
+exactly when the code is 200, and in that case every byte behind the head is left for the tunnel -/
+theorem connect_exchange_verdict (tbl : V6Tbl) (t : Addr) (ch bs : Bytes) (req : Http.Req) (r : Http.Resp)
+    (rest : Bytes) (w : W) (fuel : Nat)
+    (hreq : Http.connectRequest tbl t .tcp ch bs = some req) (hok : RespOk r) (hf : r.headers.length < fuel) :
+    (runFlat (Http.connectExchange tbl t .tcp ch bs fuel) (respBytes r ++ rest) w).1 =
+      (if r.code = 200 then .ok none else .err "upstream server failure") ∧
+    (runFlat (Http.connectExchange tbl t .tcp ch bs fuel) (respBytes r ++ rest) w).2.1 = rest := by
+  have hw : ∀ w : W, ∃ w', runFlat (Http.writeRequest req) (respBytes r ++ rest) w = (.ok (), respBytes r ++ rest, w') := by
+    intro w
+    simp [Http.writeRequest, runFlat_bind, headerLines_writes]
+  obtain ⟨w', hw'⟩ := hw w
+  have hr := response_roundtrip r rest w' fuel hok hf
+  unfold Http.connectExchange
+  rw [hreq]
+  simp only [runFlat_bind, hw', hr]
+  by_cases hc : r.code = 200 <;> simp [hc]
+
 end Redproxy.Props.C03
